@@ -495,7 +495,91 @@ func runC10Loop(t *testing.T, three bool, budgets []int) CaseOut {
 	return out
 }
 
+// runC10DeadEnd: the budget runs out exactly at a node that cannot forward any further (the previous hop
+// believes in a route that this node does not have): the sender is still told "message expired" by that node.
+// a and b are real; a scripted peer at a makes a believe that a phantom node lies behind b.
+func runC10DeadEnd(t *testing.T) CaseOut {
+	var out CaseOut
+	out.Nontrivial = true
+	bubble(t, func(t *testing.T) {
+		m := newMesh(defaultConsts, "a", "b")
+		m.up("a", "b", 1)
+		m.settle()
+		ev := m.attach("a", "evil")
+		ev.inject(mkRoute(wireRoute{NodeID: "evil", UpdateID: "e1", UpdateEpoch: 10, UpdateSequence: 1, Connections: map[string]float64{"a": 1}, ForwardingNode: "evil"}))
+		synctest.Wait()
+		m.settle()
+		ev.inject(mkRoute(wireRoute{NodeID: "evil", UpdateID: "e2", UpdateEpoch: 10, UpdateSequence: 2, Connections: map[string]float64{"a": 1}, ForwardingNode: "evil"}))
+		synctest.Wait()
+		m.settle()
+		bi := m.nodes["a"].VerifSnapshot().KnownNodes["b"]
+		// a forged update "from b" (relayed by evil) that lists the phantom node, and the phantom node's own update
+		ev.inject(mkRoute(wireRoute{NodeID: "b", UpdateID: "fb", UpdateEpoch: bi.Epoch, UpdateSequence: bi.Sequence + 1000, Connections: map[string]float64{"a": 1, "ghost": 1}, ForwardingNode: "evil"}))
+		ev.inject(mkRoute(wireRoute{NodeID: "ghost", UpdateID: "g1", UpdateEpoch: 10, UpdateSequence: 1, Connections: map[string]float64{"b": 1}, ForwardingNode: "evil"}))
+		synctest.Wait()
+		m.settle()
+		if nh := m.nodes["a"].Status().RoutingTable["ghost"]; nh != "b" {
+			out.violate("harness:c10-deadend-setup", "a routes the phantom node via %q: %v", nh, m.nodes["a"].Status().RoutingTable)
+			m.end()
+			return
+		}
+		if nh, ok := m.nodes["b"].Status().RoutingTable["ghost"]; ok {
+			out.violate("harness:c10-deadend-setup", "b has a route to the phantom node (via %s)", nh)
+			m.end()
+			return
+		}
+		for _, h := range []int{0, 1, 2, 3} {
+			pc, _ := m.nodes["a"].ListenPacket("snd")
+			pc.SetHopsToLive(byte(h))
+			done := make(chan struct{})
+			nch := pc.SubscribeUnreachable(done)
+			var notices []netceptor.UnreachableNotification
+			go func() {
+				for n := range nch {
+					notices = append(notices, n)
+				}
+			}()
+			synctest.Wait()
+			pc.WriteTo([]byte("DEADEND"), m.nodes["a"].NewAddr("ghost", "rcv"))
+			synctest.Wait()
+			m.settle()
+			time.Sleep(time.Second)
+			synctest.Wait()
+			close(done)
+			synctest.Wait()
+			ctx := fmt.Sprintf("dead end (a believes ghost lies behind b, b has no route) budget %d", h)
+			out.count("deadend_sends", 1)
+			want := ""
+			switch h {
+			case 0:
+				want = "a"
+			case 1:
+				want = "b"
+			}
+			if want != "" {
+				if len(notices) != 1 || notices[0].Problem != netceptor.ProblemExpiredInTransit || notices[0].ReceivedFromNode != want {
+					out.violate("hop:deadend-no-expiry-notice", "%s: expected one `message expired` notice from %s, got %+v", ctx, want, notices)
+				} else if n := notices[0]; n.FromNode != "a" || n.FromService != "snd" || n.ToNode != "ghost" || n.ToService != "rcv" {
+					out.violate("hop:expiry-notice-fields", "%s: notice %+v does not name the original packet", ctx, n)
+				}
+			} else {
+				for _, n := range notices {
+					if n.Problem == netceptor.ProblemExpiredInTransit {
+						out.violate("hop:expired-with-budget-left", "%s: %+v", ctx, n)
+					}
+				}
+			}
+			pc.Close()
+			synctest.Wait()
+		}
+		m.end()
+	})
+	out.Outcome = "dead-end"
+	return out
+}
+
 func runC10(w *W) {
+	w.Case("dead end behind a believed route", func() CaseOut { return runC10DeadEnd(w.T) })
 	for _, tp := range c10Topos() {
 		tp := tp
 		w.Case("topo "+tp.Name, func() CaseOut {
